@@ -2,6 +2,10 @@ import FGVerif.Proofs.C20
 #print axioms C20.complete_spec
 #print axioms C20.specCheck_sound
 #print axioms C20.complete_specCheck
+#print axioms C20.specCheck_iff
+#print axioms C20.specCheckOrdered_sound
+#print axioms C20.complete_specCheckOrdered
+#print axioms C20.complete_increasing
 #print axioms C20.complete_length
 #print axioms C20.complete_preserves
 #print axioms C20.complete_fresh
